@@ -341,7 +341,7 @@ func GetEvidence(header SessionHeader, evidenceType EvidenceType, max sdk.BigInt
 	}
 	// if hit relay limit... Seal the evidence
 	if found && !max.Equal(sdk.ZeroInt()) && evidence.NumOfProofs >= max.Int64() {
-		evidence, ok = SealEvidence(evidence, storage)
+		evidence, ok = sealEvidence(evidence, storage)
 		if !ok {
 			err = fmt.Errorf("max relays is hit and could not seal evidence! GetEvidence() with header %v", header)
 			return
@@ -360,8 +360,27 @@ func SetEvidence(evidence Evidence, evidenceStore *CacheStorage) {
 	evidenceStore.Set(key, evidence)
 }
 
+// evidenceMutex serialises every read-modify-write of an evidence object. Relays are handled concurrently; without it
+// two handlers read the same evidence, each appends its proof to its own copy and the later Set drops the other's proof.
+var evidenceMutex sync.Mutex
+
 // "SealEvidence" - Locks/sets the evidence from the stores
 func SealEvidence(evidence Evidence, storage *CacheStorage) (Evidence, bool) {
+	evidenceMutex.Lock()
+	defer evidenceMutex.Unlock()
+	// seal what the store holds now: the caller's copy may predate proofs stored since it was read
+	if key, err := evidence.Key(); err == nil {
+		if cur, found := storage.Get(key, evidence); found {
+			if e, ok := cur.(Evidence); ok {
+				evidence = e
+			}
+		}
+	}
+	return sealEvidence(evidence, storage)
+}
+
+// sealEvidence - CONTRACT: the caller holds evidenceMutex or is the only user of the evidence object
+func sealEvidence(evidence Evidence, storage *CacheStorage) (Evidence, bool) {
 	co, ok := storage.Seal(evidence)
 	if !ok {
 		return Evidence{}, ok
@@ -399,7 +418,10 @@ func (ei *EvidenceIt) Value() (evidence Evidence) {
 
 // "EvidenceIterator" - Returns a GlobalEvidenceCache iterator instance
 func EvidenceIterator(evidenceStore *CacheStorage) EvidenceIt {
+	// creating the iterator flushes (marshals) every cached evidence object: no proof may be added meanwhile
+	evidenceMutex.Lock()
 	it, _ := evidenceStore.Iterator()
+	evidenceMutex.Unlock()
 	return EvidenceIt{
 		Iterator: it,
 	}
@@ -422,6 +444,8 @@ func GetProof(header SessionHeader, evidenceType EvidenceType, index int64, evid
 
 // "SetProof" - Sets a proof object in the GOBEvidence, using the header and GOBEvidence type
 func SetProof(header SessionHeader, evidenceType EvidenceType, p Proof, max sdk.BigInt, evidenceStore *CacheStorage) {
+	evidenceMutex.Lock()
+	defer evidenceMutex.Unlock()
 	// retireve the GOBEvidence
 	evidence, err := GetEvidence(header, evidenceType, max, evidenceStore)
 	// if not found generate the GOBEvidence object
@@ -434,8 +458,40 @@ func SetProof(header SessionHeader, evidenceType EvidenceType, p Proof, max sdk.
 	SetEvidence(evidence, evidenceStore)
 }
 
+// "StoreRelayProof" - Adds a relay proof to the evidence of its session unless, by now, the evidence is sealed, already
+// holds this proof or holds the maximum number of relays. The conditions a relay handler checked while validating are
+// checked again here, atomically with the insertion, because other handlers may have stored proofs in between.
+func StoreRelayProof(p RelayProof, max sdk.BigInt, evidenceStore *CacheStorage) sdk.Error {
+	evidenceMutex.Lock()
+	defer evidenceMutex.Unlock()
+	evidence, err := GetEvidence(p.SessionHeader(), RelayEvidence, max, evidenceStore)
+	if err != nil {
+		return sdk.ErrInternal(err.Error())
+	}
+	if evidenceStore.IsSealed(evidence) {
+		return NewSealedEvidenceError(ModuleName)
+	}
+	if !IsUniqueProof(p, evidence) {
+		return NewDuplicateProofError(ModuleName)
+	}
+	if sdk.NewInt(evidence.NumOfProofs).GTE(max) {
+		return NewOverServiceError(ModuleName)
+	}
+	evidence.AddProof(p)
+	SetEvidence(evidence, evidenceStore)
+	return nil
+}
+
 func IsUniqueProof(p Proof, evidence Evidence) bool {
 	return !evidence.Bloom.Test(p.Hash())
+}
+
+// "EvidenceStatus" - What a relay handler needs to know about the evidence of a session before serving, read in one step
+func EvidenceStatus(h SessionHeader, et EvidenceType, p Proof, maxPossibleRelays sdk.BigInt, evidenceStore *CacheStorage) (sealed, unique bool, totalRelays int64) {
+	evidenceMutex.Lock()
+	defer evidenceMutex.Unlock()
+	evidence, totalRelays := GetTotalProofs(h, et, maxPossibleRelays, evidenceStore)
+	return evidenceStore.IsSealed(evidence), IsUniqueProof(p, evidence), totalRelays
 }
 
 // "GetTotalProofs" - Returns the total number of proofs for a piece of GOBEvidence
